@@ -132,6 +132,8 @@ type Run struct {
 	wk       *Worker
 	pbMsgs   []Value
 	makeSites map[string]map[int]*Term
+	preempts int
+	maxPreempt int
 	zeroCache map[types.Type]Value
 }
 
